@@ -14,6 +14,26 @@ import (
 var exitCode = 0
 
 func TestMain(m *testing.M) {
+	// every worker process works in its own scratch directory, so that the
+	// files a run writes have fixed, process-independent names
+	if os.Getenv("VERIF_CHECK") != "" {
+		dir, err := os.MkdirTemp(".", "proc")
+		if err == nil {
+			if err = os.Chdir(dir); err == nil {
+				abs, _ := os.Getwd()
+				defer os.RemoveAll(abs)
+				c := m.Run()
+				if c != 0 && exitCode == 0 {
+					exitCode = 2
+				}
+				os.Chdir("..")
+				os.RemoveAll(abs)
+				os.Exit(exitCode)
+			}
+		}
+		fmt.Fprintf(os.Stderr, "scratch dir: %v\n", err)
+		os.Exit(2)
+	}
 	c := m.Run()
 	if c != 0 && exitCode == 0 {
 		exitCode = 2 // go test failure that is not a reported violation: infrastructure
